@@ -368,13 +368,23 @@ def end_run(how):
       def watcher():
         while True:
           d, ev = state.asdict_with_event()
-          box['seen'].append(d['status'])
-          if d['status'] == 'COMPLETED':
-            return
+          if how == 'phase':
+            # the last update of this scenario is the end of a phase: recorded and no longer running
+            over = d['running_phase_state'] is None and len(d['test_record']['phases']) == 1
+            box['seen'].append('COMPLETED' if over else 'phase running / not recorded')
+            if over:
+              return
+          else:
+            box['seen'].append(d['status'])
+            if d['status'] == 'COMPLETED':
+              return
           ev.wait()
       w = threading.Thread(target=watcher, name='watch')
       w.start()
-      if how == 'abort':
+      if how == 'phase':
+        with state.running_phase_context(ph):
+          pass
+      elif how == 'abort':
         state.abort()
       elif how == 'stop':
         state.finalize_from_phase_outcome(phase_executor.PhaseExecutionOutcome(htf.PhaseResult.STOP), 'only')
@@ -400,8 +410,10 @@ def end_job(args):
     n += 1
     if failure is not None:
       if len(bad) < 3:
-        bad.append(('a watcher looping on snapshot-then-wait is left blocked forever on a finished test (end path: %s): the '
-                    'change of status to COMPLETED is not followed by a notification' % how,
+        bad.append((('a watcher looping on snapshot-then-wait is left blocked forever on a finished test (end path: %s): the '
+                     'change of status to COMPLETED is not followed by a notification' % how) if how != 'phase' else
+                    'a watcher looping on snapshot-then-wait is left with a view in which the finished phase is still running: '
+                    'the change of the running phase is not followed by a notification',
                     dict(scenario='end', how=how, schedule=picks, failure=type(failure).__name__)))
     elif box['seen'][-1:] != ['COMPLETED']:
       bad.append(('a looping watcher did not observe the final COMPLETED state', dict(scenario='end', how=how, schedule=picks)))
@@ -469,13 +481,13 @@ def main(chk):
     for sig, det in bad_ui:
       chk.violation(sig, det)
     chk.log('%d schedules of the UserInput plug' % n_ui)
-    ends = pool.map(end_job, [(how, 1 if quick else 2, 3000 if quick else 30000) for how in ('abort', 'stop', 'timeout', 'normal')])
+    ends = pool.map(end_job, [(how, 1 if quick else 2, 3000 if quick else 30000) for how in ('abort', 'stop', 'timeout', 'normal', 'phase')])
     for n_e, bad_e in ends:
       chk.traces += n_e
       chk.nontrivial += n_e
       for sig, det in bad_e:
         chk.violation(sig, det)
-    chk.tlc_runs.append(dict(name='dfs end of run with a looping watcher (4 end paths)', schedules=sum(n for n, _ in ends)))
+    chk.tlc_runs.append(dict(name='dfs end of run with a looping watcher (4 end paths, end of a phase)', schedules=sum(n for n, _ in ends)))
     chk.log('%d schedules of the end of a run with a looping watcher' % sum(n for n, _ in ends))
     nseeds = 150 if quick else 1500
     seeds = [chk.seed * 100000 + i for i in range(nseeds)]
